@@ -7,6 +7,7 @@ import (
 
 	"github.com/cloudspannerecosystem/memefish/ast"
 
+	"verif/internal/astx"
 	"verif/internal/gen"
 	"verif/internal/reflex"
 )
@@ -152,9 +153,9 @@ func copyAssign(t *tnode, variant int) *tnode {
 	rec = func(n *tnode, postfixBase bool) *tnode {
 		if n.op == nil {
 			c := &tnode{leaf: leaf}
-			k := (variant + leaf*3) % 7
-			if postfixBase && (k == 2 || k == 3 || k >= 5) {
-				k = 0 // string / number are not used as base of .f / [i]
+			k := (variant + leaf*3) % 14
+			if postfixBase && (k == 2 || k == 3 || k == 5 || k == 6 || k >= 8) {
+				k = 0 // string / number / keyword-introduced forms are not used as base of .f / [i]
 			}
 			c.atom = k
 			leaf++
@@ -190,6 +191,21 @@ func atomToks(n *tnode) ([]string, string) {
 	case 6:
 		v := []string{"0x7FFFFFFFFFFFFFFF", "0x8000000000000000", "0xFFFFFFFFFFFFFFFFF"}[n.leaf%3]
 		return []string{v}, "A(" + v + ")"
+	// primaries that bring their own brackets or keywords: a parenthesis written around them is still a ParenExpr
+	case 7:
+		return []string{"(", "SELECT", name, ")"}, "X(ScalarSubQuery," + name + ")"
+	case 8:
+		return []string{"ARRAY", "(", "SELECT", name, ")"}, "X(ArraySubQuery," + name + ")"
+	case 9:
+		return []string{"EXISTS", "(", "SELECT", name, ")"}, "X(ExistsSubQuery," + name + ")"
+	case 10:
+		return []string{"CASE", "WHEN", name, "THEN", "1", "END"}, "X(CaseExpr," + name + ")"
+	case 11:
+		return []string{"CAST", "(", name, "AS", "INT64", ")"}, "X(CastExpr," + name + ")"
+	case 12:
+		return []string{"[", name, "]"}, "X(ArrayLiteral," + name + ")"
+	case 13:
+		return []string{"(", name, ",", "1", ")"}, "X(TupleStructLiteral," + name + ")"
 	}
 	return []string{name}, "A(" + name + ")"
 }
@@ -248,7 +264,7 @@ func renderTree(t *tnode, full bool) (toks []string, shape string) {
 	case kUnary:
 		x, xs := operand(0)
 		// documented folding: a sign directly in front of an unsigned numeric literal is part of the literal
-		if (op.sym == "+" || op.sym == "-") && t.kids[0].op == nil && (t.kids[0].atom == 3 || t.kids[0].atom >= 5) && !full {
+		if (op.sym == "+" || op.sym == "-") && t.kids[0].op == nil && (t.kids[0].atom == 3 || t.kids[0].atom == 5 || t.kids[0].atom == 6) && !full {
 			return append([]string{op.sym}, x...), "A(" + op.sym + strings.TrimSuffix(strings.TrimPrefix(xs, "A("), ")") + ")"
 		}
 		return append([]string{op.sym}, x...), "U(" + op.sym + "," + xs + ")"
@@ -405,6 +421,17 @@ func shapeOf(e ast.Node) string {
 			name = n.Func.Idents[0].Name
 		}
 		return "C(" + name + "," + arg + ")"
+	}
+	switch e.(type) {
+	case *ast.ScalarSubQuery, *ast.ArraySubQuery, *ast.ExistsSubQuery, *ast.CaseExpr, *ast.CastExpr, *ast.ArrayLiteral, *ast.TupleStructLiteral:
+		name := "?"
+		for _, in := range astx.Nodes(e) {
+			if id, ok := in.Node.(*ast.Ident); ok {
+				name = id.Name
+				break
+			}
+		}
+		return "X(" + astx.TypeName(e) + "," + name + ")"
 	}
 	return fmt.Sprintf("?%T", e)
 }
